@@ -14,13 +14,13 @@ TRUST = ('TLC 1.8 and the TLA+ modules under /verif/spec (checked against declar
 
 TABLE = {
     'C01': ('model checking + trace validation of lane facts',
-            'IntLane.tla arithmetic is model-checked against (a op b) mod 2^W on all 8-bit pairs (thorough) / lattices; every lane result of + - * unary- ++ -- and compound forms recorded from the real code in each build configuration is judged by TLC (8-bit pairs exhaustively, 16/32/64-bit lattice^2 + random).', '7 C01'),
+            'IntLane.tla arithmetic is model-checked against (a op b) mod 2^W on all 8-bit pairs (thorough) / lattices; every lane result of + - * unary- ++ -- and compound forms (also self-aliased: x op= x) recorded from the real code in each build configuration is judged by TLC (8-bit pairs exhaustively, 16/32/64-bit lattice^2 + complements + multiples + random).', '7 C01'),
     'C02': ('model checking + trace validation of lane facts',
             'Comparison semantics (signed/unsigned/IEEE) model-checked for trichotomy and against native integers; every lane of every ==,!=,<,<=,>,>= result (observed through extract<I>) is judged by TLC in every configuration.', '7 C02'),
     'C04': ('model checking + trace validation of lane facts',
-            'Bitwise ops, shifts 0..W in three call forms and rotations by any amount: byte-limb semantics model-checked against multiply/divide by 2^s; recorded lane results judged by TLC for every amount and every compile-time S.', '7 C04'),
+            'Bitwise ops, shifts 0..W in three call forms and rotations by any amount: byte-limb semantics model-checked against multiply/divide by 2^s; recorded lane results judged by TLC for every amount and every compile-time S; per-lane amount vectors all different, uniform and periodic.', '7 C04'),
     'C05': ('model checking + trace validation (relation by postcondition)',
-            'DivRel (q*y+r=x, |r|<|y|, sign rules) is model-checked to have exactly the C++ truncating solution at 8 bits; recorded (q,r) of div, / %, /= %= are accepted by postcondition; zero divisors are placed in every lane and must neither trap nor disturb other lanes.', '7 C05'),
+            'DivRel (q*y+r=x, |r|<|y|, sign rules) is model-checked to have exactly the C++ truncating solution at 8 bits; recorded (q,r) of div, / %, /= %= are accepted by postcondition; zero divisors are placed in every lane and must neither trap nor disturb other lanes; a directed search over millions of structured pairs (quotients next to exact multiples of full-width divisors) is screened natively and every flagged pair is judged by TLC.', '7 C05'),
     'C06': ('model checking + trace validation of lane facts',
             'Bit-counting functions: operational byte forms model-checked against set-of-bits definitions for all 8/16-bit values; recorded lane and scalar-overload results judged by TLC.', '7 C06'),
     'C07': ('model checking + trace validation of lane facts',
@@ -30,17 +30,17 @@ TABLE = {
     'C08': ('model checking + trace validation of memory events',
             'Mem.tla: load/store/gather/scatter/extract/insert on byte images; MC_Mem checks C08 on a bounded three-page memory. Conformance: every n in 0..width+2 (and 2^31, 2^32-1), every compile-time N, every lane index, four placements, aligned and unaligned forms; window contents before/after recorded and judged by TLC; partial loads and stores into one live arena as actions of the composed machine Avel.tla (TraceAvel.tla, Gen_Avel.tla).', '7 C08 and Part II II.1'),
     'C09': ('model checking + trace validation of memory events',
-            'Same machine with ghost read/write footprints and page protection; access strategies exact / fault-suppressed mask / full-window RMW are model-checked (the last violates C09: vacuity guard). Conformance: transfers issued flush against PROT_NONE pages at either end, n = 0 with the pointer inside an inaccessible page, inactive gather/scatter lanes pointing into inaccessible memory, sentinel bytes around every store target, hardware data watchpoints (perf_event breakpoints) on the bytes adjacent to the addressed elements during every call (reads and writes, every configuration incl. AVX-512), memcheck below AVX-512; signals, watchpoint triggers and window contents recorded and judged by TLC.', '7 C09 and Part II II.4'),
+            'Same machine with ghost read/write footprints and page protection; access strategies exact / fault-suppressed mask / full-window RMW are model-checked (the last violates C09: vacuity guard). Conformance: transfers issued flush against PROT_NONE pages at either end, n = 0 with the pointer inside an inaccessible page, inactive gather/scatter lanes pointing into inaccessible memory, sentinel bytes around every store target, hardware data watchpoints (perf_event breakpoints) on the bytes adjacent to the addressed elements during every call (reads and writes, every configuration incl. AVX-512), memcheck below AVX-512; the family is repeated on unoptimised builds (-O0), where a full-width access the optimiser would fold into a masked one is really made; signals, watchpoint triggers and window contents recorded and judged by TLC.', '7 C09 and Part II II.4'),
     'C10': ('trace validation with correct rounding accepted by postcondition',
             'FP.tla: RoundsTo(mode, C, r) decides correct rounding through exact bignum comparisons (sum, product, quotient a/b via cmp(a, d*b), sqrt via cmp(a, d*d)); FP.tla itself is validated against an independent exact-rational oracle on labelled correct/corrupted facts (MC_FPSelf). Conformance: special-value/binade/halfway lattice squared x 4 rounding modes x float/double x every width, + random patterns, all forms; each lane result judged by TLC.', '7 C10'),
     'C11': ('trace validation by postcondition + environment facts',
-            'ceil/floor/trunc/round/nearbyint/rint judged by integer-neighbourhood comparisons on exact dyadics under each of the four modes; every driver call records the rounding control / FTZ / DAZ before and after (env facts: an AVEL call must leave them unchanged); the fenv family repeats every float operation with FTZ and/or DAZ set by the caller in all four modes, so a restore that drops those bits is seen.', '7 C11 and Part II'),
+            'ceil/floor/trunc/round/nearbyint/rint judged by integer-neighbourhood comparisons on exact dyadics under each of the four modes; every driver call records the rounding control / FTZ / DAZ before and after (env facts: an AVEL call must leave them unchanged); the fenv family repeats every float operation with FTZ and/or DAZ set by the caller in all four modes, so a restore that drops those bits is seen; nearbyint/rint are also called with the x87 rounding control out of step with MXCSR (the result follows MXCSR, FEnv!CurrentMode).', '7 C11 and Part II'),
     'C12': ('trace validation by postcondition',
             'frexp/ldexp/scalbn/ilogb/logb/frac/fmax/fmin/fdim on exponent fields and exact dyadics (ldexp through RoundsTo with the exponent swept over the whole range incl. INT_MIN/INT_MAX).', '7 C12'),
     'C13': ('trace validation of lane facts',
             'Classification and quiet comparisons as pure field tests; platform FP_* constants are mapped to names by the driver; every lattice / random pattern judged by TLC.', '7 C13'),
     'C14': ('trace validation of object histories',
-            'Denom.tla / TraceDenom.tla: the specification keeps den[id] = divisor given at construction and judges every later div, / %, /= %=, value() against its own state with DivRel; all (n, d) at 8 bits, adversarial numerators per divisor above; a signal during construction or use is a rejected event; copy construction and copy assignment are events too (den[id] := den[from]): every object is copied, and assigned over an older object that held another divisor, then both are used.', '7 C14 and Part II'),
+            'Denom.tla / TraceDenom.tla: the specification keeps den[id] = divisor given at construction and judges every later div, / %, /= %=, value() against its own state with DivRel; all (n, d) at 8 bits, adversarial numerators per divisor above, carry-chain numerators for limb-wise multiply-high; a signal during construction or use is a rejected event; copy construction and copy assignment are events too (den[id] := den[from]): every object is copied, and assigned over an older object that held another divisor, then both are used.', '7 C14 and Part II'),
     'C15': ('trace validation of object histories',
             'Vector denominators built from per-lane divisors (a different divisor in every lane) and broadcast from a scalar denominator; per-lane DivRel; missing or inaccessible members are recorded as events the specification rejects; copies and assignments of vector denominators as in C14.', '7 C15 and Part II'),
     'C16': ('model checking + trace validation of lane facts',
